@@ -22,6 +22,10 @@ CHECKS = {
             "TLC explores MC_ReaderOps: tag sequences over names a/ab/b, '</a >', '<a/>', look-alike end tags, under all 16 settings of the four related switches and toggles of them at any point of the call history, and checks that every result equals the documented transformation under the configuration in force NOW judged against the true nesting of the consumed prefix, and that the machine's stack equals that nesting. Every generated history is replayed on the real reader (slice/str/buffered/async) including config_mut() flips; traces with random flips are validated by TLC.",
             "Bounded scope (L fragments, <= 2 flips exhaustively; random flips in traces).",
             "DESIGN.md section 6 C04"),
+    "C05": ("TLA+ spec of NamespaceResolver/NsReader (NsScope.tla, composed with the reader and attribute specs) model-checked against a declarative nearest-declaration scope for all consumer histories; replay on the real NsReader; trace validation",
+            "TLC explores MC_Ns: properly nested documents of <= L tag-level fragments (default and prefixed declarations, re-declaration, un-declaration, shadowing on one tag, prefixed attributes, empty elements) under every history of read-event / skip calls, and checks after every call that resolve_element/resolve_attribute for a pool of names (unprefixed, p:, q:, xml:, xmlns:), prefixes() and the nesting level equal the declarative scope derived from the TRUE nesting of the document. Every (document, history) is replayed on the real NsReader over slice (read_event, read_resolved_event, read_to_end, read_text), buffered and async sources; random deeper documents and histories are validated by TLC. This check found the never-popped scope after read_to_end/read_text repaired in /repo.",
+            "Error-free reads of properly nested documents only (as the property states); after a namespace error the run ends. Bounded scope.",
+            "DESIGN.md section 6 C05"),
     "C08": ("TLA+ reader spec with tiling invariant and composed writer rendering model-checked; positions and read-then-write bytes replayed on the real reader/writer; corpus trace validation",
             "TLC checks that with trimming/expansion off the bytes between consecutive positions are exactly open delimiter + payload + close delimiter of the returned event (DOCTYPE up to keyword case/spacing), that spans tile the input and the final position is its length. TLC emits for every behaviour the positions and the concatenated rendering of all events; the harness compares buffer_position after every call and the bytes produced by Writer::write_event on slice and chunked sources. Corpus and generated traces are validated by TLC.",
             "Bounded scope; Writer::write_event is specified only for events read from the input (C09 covers constructors).",
